@@ -48,12 +48,19 @@ def load_cache_module(root: Path):
 
 
 def real_files(geo: Path):
+    """(table, kernel, 'i' | signature, mtime tick) of every cache file, in name order (= creation order = the order the harness
+    fixes for glob)"""
     out = []
-    for f in (geo / "__pycache__").iterdir():
-        t = {"mdc": 0, "emc": 1}.get(f.name.split(".")[0])
-        if t is not None and f.suffix in (".nbi", ".nbc"):
-            out.append((t, int(f.name.split(".")[1][1:])))
-    return sorted(out)
+    for f in sorted((geo / "__pycache__").iterdir(), key=lambda f: f.name):
+        parts = f.name.split(".")
+        t = {"mdc": 0, "emc": 1}.get(parts[0])
+        if t is None or f.suffix not in (".nbi", ".nbc"):
+            continue
+        kernel = int(parts[2][1:])
+        sig = "i" if f.suffix == ".nbi" else str(int(parts[3][1:]))
+        out.append((parts[1], t, kernel, sig, int(round((os.path.getmtime(f) - T0) / TICK))))
+    # creation sequence numbers are per table in the file names; the model keeps one list: order by global sequence
+    return [(t, k, sg, m) for _, t, k, sg, m in sorted(out)]
 
 
 def gen_history(rng, length):
@@ -65,9 +72,8 @@ def gen_history(rng, length):
         elif r < 0.30:
             ops.append(("touch", int(rng.integers(0, 2))))
         elif r < 0.65:
-            names += 1
-            reuse = names > 1 and rng.random() < 0.2
-            ops.append(("use", int(rng.integers(0, nproc)), int(rng.integers(0, 2)), int(rng.integers(1, names)) if reuse else names))
+            # few kernels, few signatures: repeated first uses of one kernel with another signature rewrite its index file
+            ops.append(("use", int(rng.integers(0, nproc)), int(rng.integers(0, 2)), int(rng.integers(1, 4)), int(rng.integers(0, 3))))
         elif r < 0.75:
             ops.append(("load", int(rng.integers(0, nproc)), int(rng.integers(0, 2))))
         elif r < 0.90:
@@ -86,8 +92,8 @@ def run_real(ops):
         import glob as _glob
         mod.glob = lambda pat: sorted(_glob.glob(pat))      # glob order is unspecified: fix it (name = creation order)
         clock = 0
+        seq = 0
         states = []
-        owner = {}
         for op in ops:
             clock += 1
             if op[0] == "touch":
@@ -95,11 +101,22 @@ def run_real(ops):
                 f.write_bytes(b"table-v%d" % clock)
                 os.utime(f, (T0 + clock * TICK, T0 + clock * TICK))
             elif op[0] == "use":
-                _, p, t, name = op
-                f = geo / "__pycache__" / f"{['mdc', 'emc'][t]}.k{name:06d}.nbi"
-                if not f.exists():
-                    f.write_bytes(b"cache")
-                    os.utime(f, (T0 + clock * TICK, T0 + clock * TICK))
+                _, p, t, kernel, sig = op
+                tn = ["mdc", "emc"][t]
+                pyc = geo / "__pycache__"
+                data = list(pyc.glob(f"{tn}.*.k{kernel}.s{sig}.nbc"))
+                if not data:                          # miss: numba (re)writes the kernel's index file and writes a new data file
+                    idx = list(pyc.glob(f"{tn}.*.k{kernel}.nbi"))
+                    when = (T0 + clock * TICK, T0 + clock * TICK)
+                    if idx:
+                        idx[0].write_bytes(b"index-rewritten"); os.utime(idx[0], when)
+                    else:
+                        seq += 1
+                        f = pyc / f"{tn}.{seq:06d}.k{kernel}.nbi"
+                        f.write_bytes(b"index"); os.utime(f, when)
+                    seq += 1
+                    f = pyc / f"{tn}.{seq:06d}.k{kernel}.s{sig}.nbc"
+                    f.write_bytes(b"data"); os.utime(f, when)
             elif op[0] == "check":
                 k = op[1] if len(op) > 1 else None
                 cnt = [0]
@@ -165,6 +182,11 @@ if mode == "load_then_wait":
     print("LOADED", flush=True)
     sys.stdin.readline()                             # table is replaced meanwhile
     v = float(pybes3.mdc_gid_to_west_x(np.array([0], dtype=np.int64))[0])     # first use: compiles + caches
+    print(json.dumps({"value": v}), flush=True)
+elif mode == "import_wait_int32":
+    print("LOADED", flush=True)                      # imported only (the import-time check has run)
+    sys.stdin.readline()                             # table is replaced meanwhile
+    v = float(pybes3.mdc_gid_to_west_x(np.array([0], dtype=np.int32))[0])     # same kernel, another signature: index file rewritten
     print(json.dumps({"value": v}), flush=True)
 else:
     v = float(pybes3.mdc_gid_to_west_x(np.array([0], dtype=np.int64))[0])
@@ -281,6 +303,31 @@ def e2e_same_second(chk: core.Check):
     chk.coverage["e2e_same_second"] = "timing never landed in one wall-clock second (6 attempts)"
 
 
+def e2e_index_rewrite(chk: core.Check):
+    """A compiles mdc_gid_to_west_x for int64; Q imports; the table is replaced; Q first-uses the same kernel for int32 (numba
+    rewrites the kernel's index file - now newer than the table - and adds a data file; the int64 data file is still the old one).
+    A fresh interpreter must see current values for int64: the old data file makes the import remove everything."""
+    root = scratch_package()
+    try:
+        p = run_py(root, "plain"); p.communicate(timeout=300)
+        q = run_py(root, "import_wait_int32")
+        if "LOADED" not in q.stdout.readline():
+            raise core.Infra("e2e process did not start: " + q.stderr.read()[-800:])
+        new = bump_table(root, 4.0)
+        q.stdin.write("\n"); q.stdin.flush()
+        q.communicate(timeout=300)
+        p1 = run_py(root, "plain"); out, err = p1.communicate(timeout=300)
+        v = json.loads(out.strip().splitlines()[-1])["value"]
+        chk.count(3, key="e2e-index-rewrite")
+        chk.coverage["e2e_index_rewrite"] = {"fresh_interpreter_value_int64": v, "current_table": new}
+        if abs(v - new) > 1e-9:
+            chk.failing_input("lookup in a fresh interpreter after: A used the kernel with int64; Q imported; table replaced; Q first-used the same kernel with int32",
+                              {"history": ["A: import pybes3; mdc_gid_to_west_x(int64[0])", "Q: import pybes3", "mdc_geom.npz replaced (west_x += 4)", "Q: mdc_gid_to_west_x(int32[0]) (same kernel, new signature: index file rewritten)", "P: import pybes3; mdc_gid_to_west_x(int64[0])"]},
+                              v, new, "every cache produced from older tables is discarded at the next import (the int64 data file is older than the table although the kernel's index file is newer)")
+    finally:
+        shutil.rmtree(root, ignore_errors=True)
+
+
 E2E2 = r'''
 import sys, json, numpy as np
 sys.path.insert(0, sys.argv[1])
@@ -322,10 +369,13 @@ def correspond(chk: core.Check, n_hist: int):
     rng = np.random.default_rng(chk.seed + 17)
     hists = [gen_history(rng, int(rng.integers(3, 13))) for _ in range(n_hist)]
     # corpus: the shapes named by the property
-    hists[:0] = [[("spawn",), ("use", 0, 0, 1), ("use", 0, 1, 2), ("touch", 0), ("check", 1), ("check",)],
-                 [("spawn",), ("use", 0, 0, 1), ("use", 0, 0, 2), ("check",)],
-                 [("spawn",), ("use", 0, 0, 1), ("touch", 0), ("use", 0, 0, 2), ("check", 0), ("spawn",), ("check",)],
-                 [("spawn",), ("use", 0, 0, 1), ("use", 0, 1, 2), ("force",)]]
+    hists[:0] = [[("spawn",), ("use", 0, 0, 1, 0), ("use", 0, 1, 2, 0), ("touch", 0), ("check", 1), ("check",)],
+                 [("spawn",), ("use", 0, 0, 1, 0), ("use", 0, 0, 2, 0), ("check",)],
+                 [("spawn",), ("use", 0, 0, 1, 0), ("touch", 0), ("use", 0, 0, 2, 0), ("check", 0), ("spawn",), ("check",)],
+                 [("spawn",), ("use", 0, 0, 1, 0), ("use", 0, 1, 2, 0), ("force",)],
+                 # another signature of the same kernel after a table update: the index file is rewritten (newer than the table), the old data file stays old
+                 [("spawn",), ("use", 0, 0, 1, 0), ("touch", 0), ("spawn",), ("use", 1, 0, 1, 1), ("check",)],
+                 [("spawn",), ("use", 0, 0, 1, 0), ("use", 0, 0, 1, 1), ("touch", 0), ("use", 0, 0, 1, 2), ("check", 2), ("check",)]]
     lines = []
     for h in hists:
         lines.append("reset")
@@ -341,8 +391,23 @@ def correspond(chk: core.Check, n_hist: int):
         chk.hist("history_length", len(h))
         for op in h:
             chk.hist("ops", op[0] + ("-interrupted" if op[0] == "check" and len(op) > 1 else ""))
+        # oracle on the real run alone (no model involved): right after an uninterrupted import-time check or a forced clear, no
+        # compiled kernel (data file) written before the last replacement of its table is left on disk
+        last_touch = {0: 0, 1: 0}
+        for i, (op, rs) in enumerate(zip(h, real_states)):
+            if op[0] == "touch":
+                last_touch[op[1]] = i + 1
+            if (op[0] == "check" and len(op) == 1) or op[0] == "force":
+                stale = [(t, k, sg, m) for t, k, sg, m in rs if sg != "i" and m < last_touch[t]] if op[0] == "check" else list(rs)
+                if stale and not chk.failing:
+                    t, k, sg, m = stale[0]
+                    chk.failing_input("cache files left on disk by the real check_numba_cache / clear_numba_cache after a history (scratch package layout, real functions)",
+                                      {"history": [list(o) for o in h[: i + 1]], "legend": "use p t kernel sig = first use of a kernel for an argument signature in process p (numba rewrites the kernel's index file and writes a data file); touch t = table t replaced; check = import pybes3 (check k = interrupted after k removals)"},
+                                      {"surviving_file": {"table": t, "kernel": k, "signature": sg, "written_at_step": m}, "table_replaced_at_step": last_touch[t], "all_files": [list(x) for x in rs]},
+                                      "no compiled-kernel cache written before the table was last replaced survives the next (uninterrupted) import / any file survives a forced clear",
+                                      "the next import discards every on-disk compiled-kernel cache that was produced from older tables; a forced clear removes all of them")
         for i, (ms, rs) in enumerate(zip(model_states, real_states)):
-            want = ",".join(f"{t}:{n}" for t, n in rs)
+            want = ",".join(f"{t}:{k}:{sg}@{m}" for t, k, sg, m in rs)
             got = ms.split()[0][len("files="):]
             if got != want:
                 diffs.append({"history": [list(o) for o in h[: i + 1]], "model_files": got, "real_files": want})
@@ -358,7 +423,7 @@ def main(chk: core.Check) -> int:
     thorough = chk.tier == "thorough"
     chk.coverage["rule"] = ("evaluations = operations of generated histories (touch/spawn/load/first-use/check/interrupted check/force) executed by the real functions on a "
                             "scratch package layout and by the Lean model, compared file set by file set; distinct = distinct histories; plus end-to-end interpreter runs")
-    chk.assumptions += ["timestamp granularity (equal mtimes), numba's own index/data file handling and concurrent importers are outside the model",
+    chk.assumptions += ["timestamp granularity (equal mtimes) and concurrent importers are outside the model; numba's two file kinds (index file rewritten per new signature, one data file per signature) are modelled, its file naming and locking are not",
                         "glob order fixed to ascending name (= creation order) in the harness; the model removes in that order",
                         "content-level theorem assumes atomic histories (no table update between a process loading a table and its first use of an uncached kernel); "
                         "the complementary case is the recorded finding c17-stale-process-compiles-after-update"]
@@ -375,10 +440,12 @@ def main(chk: core.Check) -> int:
     if thorough:
         e2e_normal(chk)
         e2e_wholesale(chk)
+        e2e_index_rewrite(chk)
         e2e_same_second(chk)
 
     def search():
         e2e_normal(chk)
         e2e_wholesale(chk)
+        e2e_index_rewrite(chk)
         e2e_same_second(chk)
     return chk.finish(search if not thorough else None)
